@@ -12,17 +12,18 @@ Open Scope Z_scope.
 
 (* ---- header byte ---- *)
 Lemma nal_header_split_sweep :
-  forallb (fun b0 => (Z.lor (Z.land b0 96) (Z.land b0 31) =? b0) &&
-                     ((Z.land b0 96 =? 0) || (Z.land b0 96 =? 32) || (Z.land b0 96 =? 64) || (Z.land b0 96 =? 96)))
-          (zr 128) = true.
+  forallb (fun b0 => (Z.lor (Z.land b0 224) (Z.land b0 31) =? b0) &&
+                     ((Z.land b0 224 =? 0) || (Z.land b0 224 =? 32) || (Z.land b0 224 =? 64) || (Z.land b0 224 =? 96) ||
+                      (Z.land b0 224 =? 128) || (Z.land b0 224 =? 160) || (Z.land b0 224 =? 192) || (Z.land b0 224 =? 224)))
+          (zr 256) = true.
 Proof. vm_compute. reflexivity. Qed.
 
-Lemma nal_header_split b0 : 0 <= b0 < 128 ->
-  Z.lor (Z.land b0 96) (Z.land b0 31) = b0 /\
-  (Z.land b0 96 = 0 \/ Z.land b0 96 = 32 \/ Z.land b0 96 = 64 \/ Z.land b0 96 = 96).
+Lemma nal_header_split b0 : 0 <= b0 < 256 ->
+  Z.lor (Z.land b0 224) (Z.land b0 31) = b0 /\
+  fnri_ok (Z.land b0 224).
 Proof.
-  intros H. pose proof (proj1 (forallb_forall _ _) nal_header_split_sweep b0 (in_zr 128 b0 ltac:(lia))) as Hs.
-  cbv beta in Hs. lia.
+  intros H. pose proof (proj1 (forallb_forall _ _) nal_header_split_sweep b0 (in_zr 256 b0 ltac:(lia))) as Hs.
+  cbv beta in Hs. unfold fnri_ok. lia.
 Qed.
 
 (* ---- one unit: single NAL unit packet or FU-A ---- *)
@@ -38,12 +39,12 @@ Proof.
   - rewrite zlen_cons in *. pose proof (zlen_nonneg body) as Hzb.
     replace ((if mtu - 2 <? zlen body then mtu - 2 else zlen body) <=? 0) with false
       by (destruct (mtu - 2 <? zlen body) eqn:?; lia).
-    destruct (fua_frags_spec (S (length body)) (mtu - 2) (Z.land b0 96) (Z.land b0 31) (zlen body) body
+    destruct (fua_frags_spec (S (length body)) (mtu - 2) (Z.land b0 224) (Z.land b0 31) (zlen body) body
                 ltac:(lia) ltac:(lia) ltac:(lia) ltac:(lia)) as (fs & cs & Hrun & Hrel & Hcat & _ & Hne).
     rewrite Z.eqb_refl in Hrel.
     destruct (nal_header_split b0 Hb0) as [Hsplit Hnri].
     exists fs, []. split; [exact Hrun|]. split; [inversion Hrel; discriminate|].
-    rewrite (depack_fua avc (Z.land b0 96) (Z.land b0 31) fs cs Hnri Hty Hrel stale).
+    rewrite (depack_fua avc (Z.land b0 224) (Z.land b0 31) fs cs Hnri Hty Hrel stale).
     rewrite Hcat, Hsplit. reflexivity.
 Qed.
 
